@@ -8,6 +8,8 @@ IDS="$@"
 [ -z "$IDS" ] && IDS=$(ls $V/selftest/mutants 2>/dev/null; ls $V/seeded 2>/dev/null | sed 's/[a-z]*$//' | sort -u)
 IDS=$(echo $IDS | tr ' ' '\n' | sort -u)
 pass=0; fail=0
+# scratch copies live under changing paths: keep the Go build cache from growing without bound
+CACHE=$(go env GOCACHE 2>/dev/null); if [ -n "$CACHE" ] && [ "$(du -sm "$CACHE" 2>/dev/null | cut -f1)" -gt 30000 ]; then go clean -cache; fi
 for ID in $IDS; do
   PATCHES=$(ls $V/selftest/mutants/$ID/*.patch 2>/dev/null; ls $V/seeded/$ID*/patch.diff 2>/dev/null)
   for P in $PATCHES; do
@@ -24,7 +26,7 @@ for ID in $IDS; do
       fi
     fi
     # a must-fail change has to compile: a check "catching" code that does not build proves nothing
-    if ! (cd $S/repo && GOFLAGS=-mod=mod GOPROXY=off go build ./... >$S/build.err 2>&1); then
+    if ! (cd $S/repo && GOFLAGS="-mod=mod -trimpath" GOPROXY=off go build ./... >$S/build.err 2>&1); then
       echo "INVALID $ID $(echo $P | sed "s|$V/||")  (does not build: $(grep -v '^#' $S/build.err | head -1))"; fail=$((fail+1)); rm -rf $S; continue
     fi
     OUT=$(VERIF_REPO=$S/repo VERIF_ROOT=$S/verif $V/bin/gocv check $ID 2>&1); RC=$?
